@@ -352,3 +352,98 @@ func TestWideDirectories(t *testing.T) {
 	ev.Bulk(n, n, "wide-directories")
 	ev.Exhaustive("a 1 500-entry directory (root of the tree, and two levels down) x 7 entry points x 2 backends")
 }
+
+// ---- entries that the library cannot see -----------------------------------------------------------------------------------
+
+// TestBeyondPathMax: a (legal) tree nested deeper than PATH_MAX bytes. Whatever the library can or cannot do with it, a call
+// without exclusion patterns that reports success has really removed the tree (for CleanDir, its content).
+func TestBeyondPathMax(t *testing.T) {
+	var n int64
+	for _, entry := range []string{"Rm", "RemoveWithContext", "RemoveWithContextAndExclusionPatterns", "RemoveWithPrivileges", "CleanDir", "CleanDirWithContext", "CleanDirWithContextAndExclusionPatterns"} {
+		for _, levels := range []int{22, 30} {
+			c := DeepCase{Entry: entry, Levels: levels}
+			key, _ := json.Marshal(c)
+			ev.Case(string(key), true, "beyond-path-max/"+entry, c)
+			checkDeep(t, "TestBeyondPathMax", c)
+			n++
+		}
+	}
+	ev.Exhaustive("trees nested beyond PATH_MAX: removal entry point x {22, 30} levels of 200-byte names")
+}
+
+type DeepCase struct {
+	Entry  string `json:"entry_point"`
+	Levels int    `json:"levels_of_200_byte_names"`
+}
+
+func checkDeep(t ev.T, test string, c DeepCase) {
+	box := fsbox.New("os")
+	defer box.Close()
+	troot := box.Path("tree")
+	if err := os.MkdirAll(filepath.Join(troot, "near"), 0o755); err != nil {
+		t.Fatalf("HARNESS: %v", err)
+	}
+	_ = os.WriteFile(filepath.Join(troot, "near", "f.txt"), []byte("x"), 0o644)
+	// the deep part is built step by step from inside (no single path of it fits in PATH_MAX)
+	wd, _ := os.Getwd()
+	defer func() { _ = os.Chdir(wd) }()
+	if err := os.Chdir(troot); err != nil {
+		t.Fatalf("HARNESS: %v", err)
+	}
+	name := strings.Repeat("d", 200)
+	for i := 0; i < c.Levels; i++ {
+		if err := os.Mkdir(name, 0o755); err != nil {
+			t.Fatalf("HARNESS: mkdir at level %d: %v", i, err)
+		}
+		if err := os.Chdir(name); err != nil {
+			t.Fatalf("HARNESS: chdir at level %d: %v", i, err)
+		}
+	}
+	_ = os.WriteFile("bottom.txt", []byte("bottom"), 0o644)
+	_ = os.Chdir(wd)
+	ctx := context.Background()
+	var err error
+	ev.Guard(t, prop, test, c, func() {
+		switch c.Entry {
+		case "Rm":
+			err = box.FS.Rm(troot)
+		case "RemoveWithContext":
+			err = box.FS.RemoveWithContext(ctx, troot)
+		case "RemoveWithContextAndExclusionPatterns":
+			err = box.FS.RemoveWithContextAndExclusionPatterns(ctx, troot)
+		case "RemoveWithPrivileges":
+			err = box.FS.RemoveWithPrivileges(ctx, troot)
+		case "CleanDir":
+			err = box.FS.CleanDir(troot)
+		case "CleanDirWithContext":
+			err = box.FS.CleanDirWithContext(ctx, troot)
+		case "CleanDirWithContextAndExclusionPatterns":
+			err = box.FS.CleanDirWithContextAndExclusionPatterns(ctx, troot)
+		}
+	})
+	if err != nil {
+		ev.Class("beyond PATH_MAX: the call reported a failure")
+		return
+	}
+	ev.Class("beyond PATH_MAX: the call reported success")
+	left, _ := os.ReadDir(troot)
+	if strings.HasPrefix(c.Entry, "CleanDir") {
+		if len(left) > 0 {
+			ev.Fail(t, prop, test, c, "%s reported success but the directory still holds %d entries (the first one: a %d-byte name)", c.Entry, len(left), len(left[0].Name()))
+		}
+		return
+	}
+	if _, serr := os.Lstat(troot); serr == nil {
+		ev.Fail(t, prop, test, c, "%s reported success but the tree is still there (%d entries at its top)", c.Entry, len(left))
+	}
+}
+
+func init() {
+	ev.RegisterReplay("TestBeyondPathMax", func(t ev.T, raw json.RawMessage) {
+		var c DeepCase
+		if err := json.Unmarshal(raw, &c); err != nil {
+			t.Fatalf("HARNESS: %v", err)
+		}
+		checkDeep(t, "TestBeyondPathMax", c)
+	})
+}
